@@ -215,6 +215,7 @@ func checkC03(c *Ctx) {
 	rawMutSweep(c)
 	fmt.Printf("SWEEP mutated encodings: %.1fs\n", time.Since(t0).Seconds())
 	deepChainMonitor(c)
+	giantFieldMonitor(c)
 	c.Assume("declared sizes are unrestricted for thrift.Binary.Skip, BytesSkipDecoder and the scalar/header readers; capped at 1 MiB (65536 entries for maps / unknown-field containers) for entry points that allocate what the input declares")
 	c.Assume("out-of-slice loads are observed through PROT_NONE guard pages on both sides of inputs up to 128 KiB (debug.SetPanicOnFault)")
 }
